@@ -6,8 +6,11 @@ import machine
 from props import c03
 
 ID = "C05"
-LEAN_MODULES = ["QProps.C05", "QProps.C05h", "QProps.C05x"]
+LEAN_MODULES = ["QProps.C05", "QProps.C05h", "QProps.C05x", "QProps.C03e"]
 THEOREMS = [
+    "MM.deletion_target_eligible",
+    "MM.deletion_never_touches_negative",
+    "MM.pinned_preselected_negative_deleted",
     "MM.ginv_trial_compExch",
     "MM.nexch_compExch",
     "MM.compExch_rows_single",
@@ -92,6 +95,13 @@ def bookkeeping_violations(case, obs):
         nb = len(b["arrays"]["numbers"][1])
         if natoms != nb + len(added) - len(set(removed)):
             out.append((f"notify:indices-do-not-explain-atom-count:{ts}", f"trial {k}: {nb} -> {natoms}, added {added}, removed {removed}"))
+        # 1b. what was removed carried an ELIGIBLE label: negative (do-not-touch) labels are never deleted, drawn or pre-selected
+        for x in [r for r in machine.tree_refs(next(e for e in case["table"] if e["name"] == case["trials"][k]["name"])["tree"])
+                  if case["objs"][r]["kind"] == "exch"][:1]:
+            labs = b["labels"][x]
+            neg = [i for i in removed if i < len(labs) and labs[i] < 0]
+            if neg:
+                out.append((f"labels:negative-label-deleted:{ts}", f"trial {k}: atoms {neg} with negative labels were deleted"))
         # 2. the counter: + inserted particles - deleted particles
         tr = case["trials"][k]
         ent = next(e for e in case["table"] if e["name"] == tr["name"])
